@@ -91,7 +91,7 @@ Section Mono.
       { unfold hnode_with in *. destruct (nsig cs h m) as [sg|]; cbn [bind] in *; [|discriminate].
         match type of R with (bind ?t _) = _ => destruct t as [rt|] eqn:RT end; cbn [bind] in R; [|discriminate].
         assert (RT' : (match sg_task sg with
-                       | Some t => do r1 <- hv H cs h look (S f) (m :: st) (VRef t); Ok (TASK_ID :: fst r1, snd r1)
+                       | Some t => do r1 <- hv H cs h look (S f) (m :: st) (VRef t); Ok (tmark (m :: st) t (fst r1), snd r1)
                        | None => Ok ([], 0) end) = Ok rt).
         { destruct (sg_task sg) as [t|]; [|exact RT].
           destruct (hv H cs h look f (m :: st) (VRef t)) as [r1|] eqn:R1; cbn [bind] in RT; [|discriminate].
@@ -112,7 +112,7 @@ Section Mono.
     destruct (nsig cs h n) as [sg|]; cbn [bind] in *; [|discriminate].
     match type of E with (bind ?t _) = _ => destruct t as [rt|] eqn:RT end; cbn [bind] in E; [|discriminate].
     assert (RT' : (match sg_task sg with
-                   | Some t => do r1 <- hv H cs h look f' (n :: st) (VRef t); Ok (TASK_ID :: fst r1, snd r1)
+                   | Some t => do r1 <- hv H cs h look f' (n :: st) (VRef t); Ok (tmark (n :: st) t (fst r1), snd r1)
                    | None => Ok ([], 0) end) = Ok rt).
     { destruct (sg_task sg) as [t|]; [|exact RT].
       destruct (hv H cs h look f (n :: st) (VRef t)) as [r1|] eqn:R1; cbn [bind] in RT; [|discriminate].
@@ -283,6 +283,18 @@ Proof.
   destruct (IH Hin) as [p E]. rewrite E. exists (S p). reflexivity.
 Qed.
 
+Lemma index_of_app_notin n l1 l2 : ~ In n l2 -> index_of n (l1 ++ l2) = index_of n l1.
+Proof.
+  intros Hn. destruct (in_dec Nat.eq_dec n l1) as [Hin|Hn1]; [apply index_of_app_l; exact Hin|].
+  rewrite (index_of_none n l1 Hn1). apply index_of_none. intros Hin. apply in_app_or in Hin. tauto.
+Qed.
+
+(* rewriting the task mark under the binder of a bind *)
+Lemma bind_tmark_ext (x : hres) st st' t :
+  index_of t st = index_of t st' ->
+  (do r <- x; Ok (tmark st t (fst r), snd r)) = (do r <- x; Ok (tmark st' t (fst r), snd r)).
+Proof. intros E. destruct x as [r|]; cbn [bind]; [|reflexivity]. rewrite (tmark_same_index st st' t _ E). reflexivity. Qed.
+
 Lemma in_hrefs_list h l x y : In x l -> is_meta h x = false -> In y (hrefs h x) -> In y (hrefs h (VList l)).
 Proof. intros. apply hrefs_list. exists x. auto. Qed.
 
@@ -327,14 +339,15 @@ Section Lockstep.
         change (y :: (L ++ [m]) ++ st) with (((y :: L) ++ [m]) ++ st).
         change (y :: L ++ [m]) with ((y :: L) ++ [m]).
         assert (ET : (match sg_task sg with
-                      | Some t => do r <- hv H cs h (fun _ => None) f (((y :: L) ++ [m]) ++ st) (VRef t); Ok (TASK_ID :: fst r, snd r)
+                      | Some t => do r <- hv H cs h (fun _ => None) f (((y :: L) ++ [m]) ++ st) (VRef t); Ok (tmark (((y :: L) ++ [m]) ++ st) t (fst r), snd r)
                       | None => Ok ([], 0) end)
                    = (match sg_task sg with
-                      | Some t => do r <- hv H cs h (fun _ => None) f ((y :: L) ++ [m]) (VRef t); Ok (TASK_ID :: fst r, snd r)
+                      | Some t => do r <- hv H cs h (fun _ => None) f ((y :: L) ++ [m]) (VRef t); Ok (tmark ((y :: L) ++ [m]) t (fst r), snd r)
                       | None => Ok ([], 0) end)).
         { destruct (sg_task sg) as [t|] eqn:Et; [|reflexivity].
-          rewrite (IH (y :: L) (VRef t)); [reflexivity|].
-          intros t' [<-|[]]. apply Edge. unfold sig_edges. rewrite Et. left. reflexivity. }
+          assert (Rt : reach_avoid cs h [] m t) by (apply Edge; unfold sig_edges; rewrite Et; left; reflexivity).
+          rewrite (IH (y :: L) (VRef t)); [|intros t' [<-|[]]; exact Rt].
+          apply bind_tmark_ext. apply index_of_app_notin. intros Hin. exact (NR t Hin Rt). }
         rewrite ET.
         rewrite (seq_list_ext (hsel (hv H cs h (fun _ => None) f (((y :: L) ++ [m]) ++ st))) (hsel (hv H cs h (fun _ => None) f ((y :: L) ++ [m])))); [reflexivity|].
         intros [k sel] Hp. unfold hsel. cbn [snd fst]. destruct sel as [| |v]; try reflexivity.
@@ -348,14 +361,15 @@ Section Lockstep.
     assert (Edge : forall t, In t (sig_edges h sg) -> reach_avoid cs h [] m t).
     { intros t Ht. apply ra_edge. unfold node_edges. rewrite Esg. exact Ht. }
     assert (ET : (match sg_task sg with
-                  | Some t => do r <- hv H cs h (fun _ => None) fuel (m :: st) (VRef t); Ok (TASK_ID :: fst r, snd r)
+                  | Some t => do r <- hv H cs h (fun _ => None) fuel (m :: st) (VRef t); Ok (tmark (m :: st) t (fst r), snd r)
                   | None => Ok ([], 0) end)
                = (match sg_task sg with
-                  | Some t => do r <- hv H cs h (fun _ => None) fuel [m] (VRef t); Ok (TASK_ID :: fst r, snd r)
+                  | Some t => do r <- hv H cs h (fun _ => None) fuel [m] (VRef t); Ok (tmark [m] t (fst r), snd r)
                   | None => Ok ([], 0) end)).
     { destruct (sg_task sg) as [t|] eqn:Et; [|reflexivity].
-      pose proof (lockstep fuel [] (VRef t)) as K. cbn [app] in K. unfold pure in K. rewrite K; [reflexivity|].
-      intros t' [<-|[]]. apply Edge. unfold sig_edges. rewrite Et. left. reflexivity. }
+      assert (Rt : reach_avoid cs h [] m t) by (apply Edge; unfold sig_edges; rewrite Et; left; reflexivity).
+      pose proof (lockstep fuel [] (VRef t)) as K. cbn [app] in K. unfold pure in K. rewrite K; [|intros t' [<-|[]]; exact Rt].
+      apply bind_tmark_ext. change (m :: st) with ([m] ++ st). apply index_of_app_notin. intros Hin. exact (NR t Hin Rt). }
     rewrite ET.
     rewrite (seq_list_ext (hsel (hv H cs h (fun _ => None) fuel (m :: st))) (hsel (hv H cs h (fun _ => None) fuel [m]))); [reflexivity|].
     intros [k sel] Hp. unfold hsel. cbn [snd fst]. destruct sel as [| |v]; try reflexivity.
@@ -414,7 +428,7 @@ Section CacheIsPure.
     match type of E with (bind ?t _) = _ => destruct t as [ra|] eqn:RA end; cbn [bind] in E; [|discriminate].
     (* the task *)
     assert (GT : exists f1, (match sg_task sg with
-                             | Some t => do r1 <- pure f1 (n :: st) (VRef t); Ok (TASK_ID :: fst r1, snd r1)
+                             | Some t => do r1 <- pure f1 (n :: st) (VRef t); Ok (tmark (n :: st) t (fst r1), snd r1)
                              | None => Ok ([], 0) end) = Ok rt).
     { destruct (sg_task sg) as [t|] eqn:Et; [|exists 0; exact RT].
       destruct (hv H cs h look fuel (n :: st) (VRef t)) as [r1|] eqn:R1; cbn [bind] in RT; [|discriminate].
@@ -433,7 +447,7 @@ Section CacheIsPure.
     { exact RA. }
     exists (Nat.max f1 f2).
     assert (GT' : (match sg_task sg with
-                   | Some t => do r1 <- pure (Nat.max f1 f2) (n :: st) (VRef t); Ok (TASK_ID :: fst r1, snd r1)
+                   | Some t => do r1 <- pure (Nat.max f1 f2) (n :: st) (VRef t); Ok (tmark (n :: st) t (fst r1), snd r1)
                    | None => Ok ([], 0) end) = Ok rt).
     { destruct (sg_task sg) as [t|]; [|exact GT].
       destruct (pure f1 (n :: st) (VRef t)) as [r1|] eqn:R1; cbn [bind] in GT; [|discriminate].
